@@ -84,6 +84,18 @@ static coap_response_t on_resp(coap_session_t *s, const coap_pdu_t *sent, const 
   return COAP_RESPONSE_OK;
 }
 
+/* forced-timer mode: the k-th one-byte draw (the retransmission jitter of the k-th CON) is 8*k,
+ * so that no two send-queue nodes are due at the same instant (coap_calc_timeout has 32 steps);
+ * with the clock frozen nothing then fires by itself.  Everything else comes from vn_prng_fn. */
+static unsigned jitter_ctr;
+static int ns_prng(void *buf, size_t len) {
+  if (len == 1) {
+    *(uint8_t *)buf = (uint8_t)(8 * jitter_ctr++);
+    return 1;
+  }
+  return vn_prng_fn(buf, len);
+}
+
 static void fire_timer(coap_session_t *s, int mid) {
   coap_queue_t *node = NULL;
   coap_lock_lock(ctx, return);
@@ -100,6 +112,12 @@ static void do_case(void) {
   if (nsess < 1 || nsess > MAXS || vntok < 3 + nsess) { puts("ERROR bad case"); return; }
   vn_now = 1000;
   vn_prng_seed(++caseno);
+  {
+    int natural = 0;
+    for (int i = 3 + nsess; i < vntok; i++) natural |= vtok[i][0] == 'W';
+    jitter_ctr = 0;
+    if (!natural) coap_set_prng(ns_prng);
+  }
   vn_on_send = on_send;
   recording = 0;
   ctx = coap_new_context(NULL);
@@ -190,6 +208,9 @@ static void do_case(void) {
     if (dbg) {
       fprintf(stderr, "  after %s:", op);
       for (int k = 0; k < nsess; k++) fprintf(stderr, " s%d.con_active=%u", k, sess[k]->con_active);
+      fprintf(stderr, " | sendqueue(base=%llu):", (unsigned long long)ctx->sendqueue_basetime);
+      for (coap_queue_t *q = ctx->sendqueue; q; q = q->next)
+        fprintf(stderr, " [mid=%d t=+%llu cnt=%u]", q->id, (unsigned long long)q->t, q->retransmit_cnt);
       fprintf(stderr, "\n");
     }
   }
